@@ -735,9 +735,14 @@ class MemioEngine(object):
         m = self.m = c.build_machine(width=width, height=1,
                                      n_cores=[18, 4][t.draw(2)])
         heap = [1024, 4096, 65536][t.draw(3)]
+        # (the chips' heaps usually start at one and the same address, so
+        # blocks on different chips have equal addresses)
+        same_base = t.draw(3) != 0
+        base0 = 0x60000000 + 0x100 * t.draw(16)
         for ch in m.chips.values():
             ch.sdram.size = heap
-            ch.sdram.base = 0x60000000 + 0x100 * t.draw(16)
+            ch.sdram.base = base0 if same_base else \
+                0x60000000 + 0x100 * t.draw(16)
         m.on_command = self.on_command
         self.inject_alloc_fail = False
         m.alloc_fail_hook = lambda chip, what, n: self.inject_alloc_fail
